@@ -590,6 +590,19 @@ def validate_tile_events(res, module, mc_prefix, path, wd, label):
             sys.stdout.write(text[-3000:])
             raise ToolError("%s did not consume %s (rc=%s, states=%s, lines=%d)" % (module, pth, rc, c, nl))
         return text
+    # what the recorded decisions were (vacuity guard: every kind of decision must occur)
+    acts = {}
+    for lines in groups.values():
+        for ln in lines:
+            m = re.search(r'"act":(\d+)', ln)
+            if m:
+                acts[m.group(1)] = acts.get(m.group(1), 0) + 1
+    res_acts = getattr(res, "extra", None)
+    if res_acts is not None:
+        res.extra[module + "_decisions"] = acts
+    need = {"Trace_Tiles3": "01234", "Trace_Tiles2": "1234"}.get(module, "")
+    if getattr(res, "tier", "") in ("quick", "thorough") and any(a not in acts for a in need):
+        log("note: %s: the recorded renders never took decision(s) %s (coverage of this run, not a verdict)" % (module, [a for a in need if a not in acts]))
     events = sum(j[3] for j in jobs)
     cases = sum(1 for lines in groups.values() for ln in lines if '"e":"reset"' in ln)
     drift, unsound, rejects = {}, 0, {}
